@@ -255,14 +255,36 @@ def _body(info):
     if tname in COMPOSITE:
         if not depth:
             return {}
-        rows = [[({"bad": True} if it == "bad" else {}) for it in row]
-                for row in _list_rows({"items": _Run.items, "lens": _Run.lens}, path, depth)]
-        return rows if depth == 2 else rows[0]
+        spec = _list_rows({"items": _Run.items, "lens": _Run.lens}, path, depth)
+        rows = [_row_value(row) for row in spec if row != "raise"]
+        if depth == 1:
+            return rows[0]
+        return _raising_iter(rows[:spec.index("raise")]) if "raise" in spec else rows
     return 1
 
 
+def _raising_iter(values):
+    """an iterable that raises ResolverError once its values are consumed"""
+    for v in values:
+        yield v
+    raise ResolverError("the iterable failed part-way")
+
+
+def _row_value(row):
+    vals = []
+    for it in row:
+        if it == "raise":
+            return _raising_iter(vals)
+        vals.append({"bad": True} if it == "bad" else {})
+    return vals
+
+
+FAILS = ("bad", "raise")     # an item that cannot be completed / the iterable raising at that position
+
+
 def _list_rows(case, path, depth):
-    """the items of the list field at path as rows of "ok" / "bad" (a depth-1 list is one row)"""
+    """the items of the list field at path as rows of "ok" / "bad" / "raise" (a depth-1 list is one row;
+    at depth 2 a row can also be the string "raise": the outer iterable raises there)"""
     spec = case.get("items", {}).get(_pkey(path))
     if spec is None:
         if depth == 2:
@@ -437,9 +459,11 @@ def build_tree(case):
                     # that cannot be completed; such a failure stops the enclosing loop over the rows as
                     # well, unless it only surfaces once deferred values of earlier items are there
                     for r, row in enumerate(_list_rows(case, p, is_list)):
+                        if row == "raise":
+                            break
                         failed = row_deferred = False
                         for c, it in enumerate(row):
-                            if it == "bad":
+                            if it in FAILS:
                                 failed = True
                                 break
                             pref = [c] if is_list == 1 else [r, c]
@@ -639,7 +663,7 @@ def machine_applies(case):
         return False
     # the C08/C09 machine has neither nested lists nor items that cannot be completed
     doc = doc_text(case)
-    if any(f in doc for f in ("lli", "llni", "llnn")) or "bad" in json.dumps(case.get("items", {})):
+    if any(f in doc for f in ("lli", "llni", "llnn")) or any(f in json.dumps(case.get("items", {})) for f in FAILS):
         return False
     if case["config"] == "asyncio" and case["n"] > 0 and case.get("mw_async"):
         return False
@@ -717,7 +741,7 @@ def _clprog(enc, case):
                     o = "LVNil"
                     for c in reversed(range(len(items))):
                         pref = [c] if depth == 1 else [r, c]
-                        it = "LBad" if items[c] == "bad" else "(LObj %s)" % flds(tname, p + pref, sub)
+                        it = "LBad" if items[c] in FAILS else "(LObj %s)" % flds(tname, p + pref, sub)
                         o = "(LVCons %s %s)" % (it, o)
                     return "(LList false %s)" % o
                 rows = _list_rows(case, p, depth)
@@ -726,7 +750,7 @@ def _clprog(enc, case):
                 else:
                     o = "LVNil"
                     for r in reversed(range(len(rows))):
-                        o = "(LVCons %s %s)" % (row(r, rows[r]), o)
+                        o = "(LVCons %s %s)" % ("LBad" if rows[r] == "raise" else row(r, rows[r]), o)
                     v = "(LList true %s)" % o
             dfr = awaited or is_deferred_field(case, parent_type, name)
             out = "(LFCons %d %s %s %s)" % (enc.elem(key), "true" if dfr else "false", v, out)
@@ -851,6 +875,11 @@ def corpus():
                             ("llnn", [["ok"], ["ok", "bad", "ok"], ["ok"]]), ("llni", [["bad"], ["ok"]])):
             out.append(_base(config, sel=[[None, fname, None, sub_a], [None, "b", None, []]],
                              items={fname: spec}, deferred=dfr, k=2, stacking="multi", n=1))
+        # commit 75abc69: the iterable itself raises ResolverError part-way
+        for fname, spec in (("li", ["ok", "raise"]), ("lni", ["ok", "ok", "raise", "ok"]),
+                            ("llni", [["ok", "raise"], ["ok"]]), ("lli", [["ok"], "raise", ["ok"]])):
+            out.append(_base(config, sel=[[None, fname, None, sub_a], [None, "b", None, []]],
+                             items={fname: spec}, deferred=dfr, k=1, stacking="plain", n=1))
         out.append(_base(config, sel=[[None, "o", None, [[None, "llni", None, sub_a + [[None, "b", None, []]]]]]],
                          items={"o/llni": [["ok", "bad"], ["ok", "ok"]]}, deferred=dfr, k=1, stacking="tracer"))
         # seeded C16-e: a `__typename` hot path that bypasses resolve_field (no hooks, no middlewares):
@@ -912,8 +941,10 @@ def _paths(case):
             if tname in COMPOSITE:
                 if is_list:
                     for r, row in enumerate(_list_rows(case, p, is_list)):
+                        if row == "raise":
+                            break
                         for c, it in enumerate(row):
-                            if it == "bad":
+                            if it in FAILS:
                                 break
                             go(tname, p + ([c] if is_list == 1 else [r, c]), sub)
                 else:
@@ -937,8 +968,10 @@ def _gen_exec(rng, config, max_deferred, max_orders):
             depth = FIELDS[parent][name][1]
             if name in ABSTRACT_LISTS and _pkey(p) not in case["items"]:
                 def row():
-                    return [("bad" if rng.random() < 0.22 else "ok") for _ in range(rng.choice([1, 2, 2, 3]))]
-                case["items"][_pkey(p)] = row() if depth == 1 else [row() for _ in range(rng.choice([1, 2, 3]))]
+                    return [rng.choice(["bad", "bad", "raise"]) if rng.random() < 0.27 else "ok"
+                            for _ in range(rng.choice([1, 2, 2, 3]))]
+                case["items"][_pkey(p)] = row() if depth == 1 else \
+                    [("raise" if rng.random() < 0.08 else row()) for _ in range(rng.choice([1, 2, 3]))]
             elif depth and name not in ABSTRACT_LISTS and _pkey(p) not in case["lens"]:
                 case["lens"][_pkey(p)] = rng.choice([0, 1, 2, 2])
     for p, _parent, name in _paths(case):
